@@ -98,7 +98,31 @@ func runC03(c *Ctx, pr *PropertyRun) {
 		if recvNamed(root) == lfs && lfs != nil {
 			return true
 		}
-		if root.Object() != nil && root.Object().Exported() {
+		// a method of an unexported operation-state type: as good as the
+		// functions that construct values of that type
+		if n := recvNamed(root); n != nil && !externallyCallable(root) && !n.Obj().Exported() {
+			made := 0
+			okAll := true
+			for _, g := range p.ModFns {
+				if !inLib(g) || len(g.Blocks) == 0 || recvNamed(g) == n {
+					continue
+				}
+				eachInstr(g, func(_ *ssa.BasicBlock, in ssa.Instruction) {
+					al, ok := in.(*ssa.Alloc)
+					if !ok || namedOf(al.Type().(*types.Pointer).Elem()) != n {
+						return
+					}
+					made++
+					if !onlyFromLFS(g, depth+1) {
+						okAll = false
+					}
+				})
+			}
+			if made > 0 {
+				return okAll
+			}
+		}
+		if externallyCallable(root) {
 			return false
 		}
 		n := 0
@@ -167,6 +191,8 @@ func runC03(c *Ctx, pr *PropertyRun) {
 
 	// reported hrefs are decoded paths, never re-parsed as URLs
 	urlParseRule(c, pr, "C03", nil)
+	// the hrefs reported back are written by URL.String and read by url.Parse (shared with C16.pairs)
+	c16Pairs(c, pr, "C03", func(what string) bool { return what == "href" })
 	// the refusal reaches the client as the 4xx it was labelled with
 	serveErrorTable(c, pr, "C03")
 
@@ -220,6 +246,15 @@ func (s *sanitiser) sanitised(v ssa.Value, at *ssa.BasicBlock, fn *ssa.Function,
 			return s.cellSanitised(cell, fn, at, depth)
 		case *ssa.FreeVar:
 			return s.freeVarSanitised(cell, fn, depth)
+		case *ssa.FieldAddr:
+			// a field of an unexported struct of the module that carries the
+			// state of an operation: every store into that field, anywhere
+			// in the module, stores a sanitised value
+			if pt, ok := cell.X.Type().Underlying().(*types.Pointer); ok {
+				if n := namedOf(pt.Elem()); n != nil && !n.Obj().Exported() && inModuleType(n) {
+					return s.fieldSanitised(n, cell.Field, depth)
+				}
+			}
 		}
 		return false, "loaded from memory"
 	case *ssa.FreeVar:
@@ -228,6 +263,42 @@ func (s *sanitiser) sanitised(v ssa.Value, at *ssa.BasicBlock, fn *ssa.Function,
 		return s.paramSanitised(x, fn, depth)
 	}
 	return false, fmt.Sprintf("%T %s", v, v.Name())
+}
+
+func (s *sanitiser) fieldSanitised(n *types.Named, field int, depth int) (bool, string) {
+	p := s.c.P
+	stores := 0
+	for _, g := range p.ModFns {
+		if !inLib(g) || len(g.Blocks) == 0 {
+			continue
+		}
+		var bad string
+		eachInstr(g, func(b *ssa.BasicBlock, in ssa.Instruction) {
+			st, ok := in.(*ssa.Store)
+			if !ok {
+				return
+			}
+			fa, ok := st.Addr.(*ssa.FieldAddr)
+			if !ok || fa.Field != field {
+				return
+			}
+			pt, ok := fa.X.Type().Underlying().(*types.Pointer)
+			if !ok || namedOf(pt.Elem()) != n {
+				return
+			}
+			stores++
+			if ok, why := s.sanitised(st.Val, b, g, depth+1); !ok && bad == "" {
+				bad = fmt.Sprintf("%s stores %s into the field", fnKey(g), why)
+			}
+		})
+		if bad != "" {
+			return false, bad
+		}
+	}
+	if stores == 0 {
+		return false, "field never assigned"
+	}
+	return true, fmt.Sprintf("field %s of %s: every store (%d) is a sanitised value", fieldName(n, field), n.Obj().Name(), stores)
 }
 
 func (s *sanitiser) cellSanitised(cell *ssa.Alloc, fn *ssa.Function, at *ssa.BasicBlock, depth int) (bool, string) {
@@ -340,7 +411,7 @@ func (s *sanitiser) paramSanitised(prm *ssa.Parameter, fn *ssa.Function, depth i
 		})
 		return ok, why
 	}
-	if fn.Object() != nil && fn.Object().Exported() {
+	if externallyCallable(fn) {
 		return false, "parameter " + prm.Name() + " of exported " + fnKey(fn)
 	}
 	if fn.Signature.Recv() != nil && fn.Object() != nil && !fn.Object().Exported() && fn == s.san {
@@ -540,3 +611,39 @@ func c03Hrefs(c *Ctx, r *RuleResult, sz *sanitiser) {
 
 var _ = sort.Strings
 var _ = strings.Contains
+
+// externallyCallable: an exported function, or an exported method of an
+// exported type. An exported method NAME on an unexported type (needed to
+// satisfy an unexported interface) cannot be called from outside the package.
+func externallyCallable(fn *ssa.Function) bool {
+	if fn.Object() == nil || !fn.Object().Exported() {
+		return false
+	}
+	if n := recvNamed(fn); n != nil && !n.Obj().Exported() {
+		// ... unless the type is handed out behind an exported interface
+		// that has the method
+		if pkg := n.Obj().Pkg(); pkg != nil {
+			for _, name := range pkg.Scope().Names() {
+				tn, ok := pkg.Scope().Lookup(name).(*types.TypeName)
+				if !ok || !tn.Exported() {
+					continue
+				}
+				it, ok := tn.Type().Underlying().(*types.Interface)
+				if !ok {
+					continue
+				}
+				has := false
+				for i := 0; i < it.NumMethods(); i++ {
+					if it.Method(i).Name() == fn.Name() {
+						has = true
+					}
+				}
+				if has && (types.Implements(n, it) || types.Implements(types.NewPointer(n), it)) {
+					return true
+				}
+			}
+		}
+		return false
+	}
+	return true
+}
